@@ -684,40 +684,12 @@ func checkC06(rep *core.Report) {
 				return out
 			}
 			entry = loop.Header.Instrs[0]
+			fold := foldedEdges(isSetIDValue, id)
 			w := core.Walk{EdgeOK: func(b *ssa.BasicBlock, si int) bool {
 				if b.Succs[si] == loop.Header || !loop.Blocks[b.Succs[si]] {
 					return false
 				}
-				cond, truth, ok := core.IfEdge(b, si)
-				if !ok {
-					return true
-				}
-				be, isB := cond.(*ssa.BinOp)
-				if !isB || !strings.Contains(fieldLoadName(be.X), "SetID") {
-					return true
-				}
-				c, isC := ssaConstInt(be.Y)
-				if !isC {
-					return true
-				}
-				var val bool
-				switch be.Op {
-				case token.EQL:
-					val = id == c
-				case token.NEQ:
-					val = id != c
-				case token.LSS:
-					val = id < c
-				case token.LEQ:
-					val = id <= c
-				case token.GTR:
-					val = id > c
-				case token.GEQ:
-					val = id >= c
-				default:
-					return true
-				}
-				return val == truth
+				return fold(b, si)
 			}}
 			for i := range w.ReachInstrs(entry) {
 				if cc, ok := i.(*ssa.Call); ok && cc.Common().StaticCallee() != nil && prog.IsRepoFunc(cc.Common().StaticCallee()) {
@@ -803,6 +775,44 @@ func checkBothFieldLists(prog *core.Program, rr *core.RuleRun, rel string) {
 				}
 				if _, seen := reads[f.Name()]; !seen {
 					reads[f.Name()] = ins.Pos()
+				}
+			}
+		})
+		// a list handed over whole (to a comparison such as reflect.DeepEqual, to a copy, to a helper) is read as well
+		allInstrs(fn, func(ins ssa.Instruction) {
+			var ld ssa.Value
+			switch x := ins.(type) {
+			case *ssa.UnOp:
+				if x.Op != token.MUL {
+					return
+				}
+				ld = x
+			case *ssa.Field:
+				ld = x
+			default:
+				return
+			}
+			_, f := fieldLoad(ld)
+			if f == nil || !(f.Name() == "FieldSpecifiers" || f.Name() == "ScopeFieldSpecifiers") {
+				return
+			}
+			for _, r := range referrers(ld) {
+				whole := false
+				switch x := r.(type) {
+				case *ssa.MakeInterface, *ssa.Slice:
+					whole = true
+				case ssa.CallInstruction:
+					if bi, isB := x.Common().Value.(*ssa.Builtin); isB {
+						// append(list, ...) writes; len/cap are size tests; copy(dst, list) reads
+						whole = bi.Name() == "copy" && len(x.Common().Args) == 2 && x.Common().Args[1] == ld
+					} else {
+						whole = true
+					}
+				}
+				if whole {
+					if _, seen := reads[f.Name()]; !seen {
+						reads[f.Name()] = r.Pos()
+					}
 				}
 			}
 		})
